@@ -241,9 +241,11 @@ def requires_auth(func):
                         lock = _sync_auth_locks[self] = threading.Lock()
 
                 if lock.acquire(blocking=False):
-                    self.authenticate()
-                    self._auth_lock = lock
-                    lock.release()
+                    try:
+                        self.authenticate()
+                        self._auth_lock = lock
+                    finally:
+                        lock.release()
                 else:
                     with lock:
                         pass
